@@ -126,20 +126,77 @@ func c14Setup() *c14Env {
 // op returns a freshly parsed and validated operation `query Q($u: Int = 3, $v: T [= default]) { t<i>(x: $v) u: t0(x: $u) }`.
 // bareDefault: set while the "absent+bare-default" mode runs — the default literal is then
 // the innermost single value, which input coercion must wrap into the declared list type.
-var c14BareDefault bool
+var c14DefVariant string // "" = the canonical default literal; else one of c14DefVariants
+
+// c14DefVariants: other ways to write a default for a type, each with the value an absent
+// variable must then hold. ok is false where the variant does not apply to the type.
+var c14DefVariants = []string{"bare", "empty", "empty2", "null", "nullitem", "intfloat", "object2"}
+
+func defaultVariant(t *refcoerce.Type, variant string) (lit string, val any, ok bool) {
+	inner := t
+	depth := 0
+	for inner.Elem != nil {
+		inner = inner.Elem
+		depth++
+	}
+	wrap := func(l string, v any, d int) (string, any) {
+		for i := 0; i < d; i++ {
+			l, v = "["+l+"]", []any{v}
+		}
+		return l, v
+	}
+	switch variant {
+	case "":
+		l, v := defaultLit(t)
+		return l, v, true
+	case "bare": // a single value where a list is declared: comes back wrapped to the declared depth
+		if depth == 0 {
+			return "", nil, false
+		}
+		l, _ := defaultLit(&refcoerce.Type{Named: inner.Named})
+		_, v := defaultLit(t)
+		return l, v, true
+	case "empty":
+		if depth == 0 {
+			return "", nil, false
+		}
+		return "[]", []any{}, true
+	case "empty2":
+		if depth < 2 {
+			return "", nil, false
+		}
+		return "[[]]", []any{[]any{}}, true
+	case "null":
+		if t.NonNull {
+			return "", nil, false
+		}
+		return "null", nil, true
+	case "nullitem":
+		if depth == 0 || t.Elem.NonNull {
+			return "", nil, false
+		}
+		return "[null]", []any{nil}, true
+	case "intfloat":
+		if inner.Named != "Float" {
+			return "", nil, false
+		}
+		l, v := wrap("2", 2.0, depth)
+		return l, v, true
+	case "object2":
+		if inner.Named != "In" {
+			return "", nil, false
+		}
+		l, v := wrap(`{b: "s", k: CAT, c: []}`, map[string]any{"b": "s", "k": "CAT", "c": []any{}}, depth)
+		return l, v, true
+	}
+	return "", nil, false
+}
 
 func (e *c14Env) op(i int, withDefault bool) *ast.OperationDefinition {
 	t := e.types[i]
 	def := ""
 	if withDefault {
-		l, _ := defaultLit(t)
-		if c14BareDefault {
-			n := t
-			for n.Elem != nil {
-				n = n.Elem
-			}
-			l, _ = defaultLit(&refcoerce.Type{Named: n.Named})
-		}
+		l, _, _ := defaultVariant(t, c14DefVariant)
 		def = " = " + l
 	}
 	q := fmt.Sprintf("query Q($u: Int = 3, $v: %s%s) { t%d(x: $v) u: t0(x: $u) }", t.String(), def, i)
@@ -286,7 +343,7 @@ func goRepr(v any) string {
 }
 
 type c14Input struct {
-	Bare    bool   `json:"bare_default,omitempty"`
+	Variant string `json:"default_variant,omitempty"`
 	TypeIdx int    `json:"type_index"`
 	Type    string `json:"type"`
 	Mode    string `json:"mode"` // supplied | supplied+default | absent | absent+default | null | null+default
@@ -306,9 +363,9 @@ func c14Replay(c *explore.Ctx, s *explore.SubStats, in c14Input) {
 		c14Case(c, s, e, in.TypeIdx, in.Mode, v, true, ch.Choices())
 		return
 	}
-	c14BareDefault = in.Bare
+	c14DefVariant = in.Variant
 	c14Case(c, s, e, in.TypeIdx, in.Mode, nil, false, nil)
-	c14BareDefault = false
+	c14DefVariant = ""
 }
 
 func c14Case(c *explore.Ctx, s *explore.SubStats, e *c14Env, ti int, mode string, val any, supplied bool, choices []int) {
@@ -327,9 +384,10 @@ func c14Case(c *explore.Ctx, s *explore.SubStats, e *c14Env, ti int, mode string
 	default:
 		repr = "(absent)"
 	}
-	in := c14Input{c14BareDefault, ti, t.String(), mode, choices, repr}
-	if c14BareDefault {
-		repr += " (default written as a single value)"
+	in := c14Input{c14DefVariant, ti, t.String(), mode, choices, repr}
+	if c14DefVariant != "" {
+		l, _, _ := defaultVariant(t, c14DefVariant)
+		repr += " (default written as " + l + ")"
 	}
 	rendered := fmt.Sprintf("$v: %s  mode=%s  value=%s", t.String(), mode, repr)
 	explore.Crumb(s.Name, rendered)
@@ -364,6 +422,10 @@ func c14Case(c *explore.Ctx, s *explore.SubStats, e *c14Env, ti int, mode string
 		if err.Error() == "" {
 			bad("error/empty-message", "coercion error with an empty message")
 		}
+		if !supplied && mode == "absent+default" {
+			// the operation passed validation, so its default is a value of the type: an absent variable takes it
+			bad("coerce/default-refused shape="+shape, fmt.Sprintf("absent variable with a valid default: VariableValues returned the error %q", err.Error()))
+		}
 		if coercible == refcoerce.Yes {
 			s.Outcome("refused-coercible " + shape)
 		} else {
@@ -384,8 +446,13 @@ func c14Case(c *explore.Ctx, s *explore.SubStats, e *c14Env, ti int, mode string
 			bad("coerce/supplied-variable-missing shape="+shape, "a supplied variable is missing from the returned values")
 		}
 	case withDefault:
-		_, dv := defaultLit(t)
-		if !present || !reflect.DeepEqual(normNum(normAny(got)), normNum(normAny(dv))) {
+		_, dv, _ := defaultVariant(t, c14DefVariant)
+		if dv == nil {
+			// a null default: the variable is null (whether or not the key is present)
+			if got != nil {
+				bad("coerce/default-not-applied shape="+shape, fmt.Sprintf("absent variable with default null: expected nil, got %s", goRepr(got)))
+			}
+		} else if !present || got == nil || !reflect.DeepEqual(normNum(normAny(got)), normNum(normAny(dv))) {
 			bad("coerce/default-not-applied shape="+shape, fmt.Sprintf("absent variable with default: expected %s, got %s (present=%v)", goRepr(dv), goRepr(got), present))
 		}
 	default:
@@ -520,13 +587,18 @@ func runC14(c *explore.Ctx) {
 				s.Transitions++
 				c14Case(c, s, e, ti, mode, nil, false, nil)
 			}
-			if e.types[ti].Elem != nil {
-				// the default is written as a single value: coercion must wrap it to the list type
-				c14BareDefault = true
+			// the default written in other ways: a single value for a list type (comes back wrapped),
+			// empty lists, null, a null item, an Int for a Float, a fuller input object
+			for _, variant := range c14DefVariants {
+				if _, _, ok := defaultVariant(e.types[ti], variant); !ok {
+					continue
+				}
+				c14DefVariant = variant
 				s.States++
 				s.Transitions++
 				c14Case(c, s, e, ti, "absent+default", nil, false, nil)
-				c14BareDefault = false
+				c14Case(c, s, e, ti, "null+default", nil, false, nil)
+				c14DefVariant = ""
 			}
 		}
 	}
